@@ -1125,5 +1125,41 @@ fn c11_roundtrip_hll4(a: &Array4) -> (b: Array4)
 }
 #[verifier::external_body] fn c11_unreachable4() -> Array4 requires false { unreachable!() }
 
+
+// =====================================================================================================================
+// REFINEMENT MAPPING for unit hll_dispatch (tools/linkprove.py).  hll_dispatch calls every per-mode parser through a stub
+//     T_accepts(payload, fields) ==> r is Ok,      r matches Ok(a) ==> T_parsed(a, payload, fields)
+// with T_accepts / T_parsed uninterpreted there.  Here they are DEFINED as the clauses this unit states for the real body
+// (one conjunct per tagged clause of `deserialize`; a rejection clause `c ==> r is Err` appears as `!c`), so the stub is implied.
+// =====================================================================================================================
+spec fn array4_accepts(p: Seq<u8>, cur_min: u8, lg_k: u8, compact: bool, ooo: bool, lg_arr: u8) -> bool { valid_hll4_payload(p, lg_k, compact, lg_arr) }
+spec fn array4_parsed(a: Array4, p: Seq<u8>, cur_min: u8, lg_k: u8, compact: bool, ooo: bool, lg_arr: u8) -> bool {
+    &&& !(p.len() < 32 + nbytes4(lg_k) || (compact && p.len() < 32 + nbytes4(lg_k) + 4 * dec_aux_count(p)))
+    &&& a.lg_config_k == lg_k
+    &&& a.cur_min == cur_min
+    &&& a.bytes@ == dec_regs(p, nbytes4(lg_k))
+    &&& a.num_at_cur_min == dec_cur_min_count(p)
+    &&& a.estimator.out_of_order == ooo
+    &&& f64_bits(a.estimator.kxq0) == dec_kxq0_bits(p) && f64_bits(a.estimator.kxq1) == dec_kxq1_bits(p)
+    &&& (!ooo ==> f64_bits(a.estimator.hip_accum) == dec_hip_bits(p))
+    &&& (compact && valid_hll4_payload(p, lg_k, compact, lg_arr) ==> a.auxv() == aux_of_words(dec_aux_ws(p, lg_k, true, lg_arr), lg_k))
+    &&& (!compact && valid_hll4_payload(p, lg_k, compact, lg_arr) ==> a.auxv() == aux_of_words(dec_aux_ws(p, lg_k, false, lg_arr), lg_k))
+    &&& a.wf_shape() && a.wf_aux_map() && a.wf_ooo_hip() && a.wf_aux_token() && a.wf_aux_range() && a.wf_reg_range() && a.wf_num_at_cur_min()
+}
+
+// REFINEMENT MAPPING for unit hll_api (tools/linkprove.py): hll_api calls the per-mode writers through stubs
+//     requires self.ser_pre() [, lg_config_k == self.lg_config_k]     ensures self.image(lg_config_k, [hll_type,] r@)
+// with `ser_pre` / `image` uninterpreted there; here they are the precondition and the conjunction of the clauses proved for the real body.
+impl Array4 {
+    spec fn ser_pre(&self) -> bool { self.wf() }
+    spec fn image(&self, lg: u8, b: Seq<u8>) -> bool {
+        &&& b == enc_hll4(hdr_compact(b), b[4], self.aview(), img_aux_words(b, lg))
+        &&& aux_slots_ok(img_aux_words(b, lg), self.auxv())
+        &&& (forall|i: int| 0 <= i < img_aux_words(b, lg).len() && img_aux_words(b, lg)[i] != 0 ==> w_val(#[trigger] img_aux_words(b, lg)[i]) as int == self.reg(w_slot(img_aux_words(b, lg)[i]) as int))
+        &&& aux_layout_ok(hdr_compact(b), b[4], img_aux_words(b, lg))
+        &&& b.len() == 40 + pow2k(lg) / 2 + 4 * cnt15(self.bytes@, pow2k(lg))
+        &&& b.len() <= 40 + pow2k(lg) / 2 + 4 * pow2k(lg)
+    }
+}
 }
 fn main(){}
